@@ -29,8 +29,8 @@ MANIFEST = dict(
          "the real store through the real account manager; the published list of every live block after every step is validated by TLC "
          "against the full sort of the candidates read from the same block view. Real nodes with a shortened term process register/vote/"
          "unregister transactions; DeputyNodes of snapshot blocks is validated against the parent's list.",
-    note="List size is lowered through the verif hook store.VerifSetMaxCandidates (max_candidate_count is a package variable). Three genuine "
-         "defects of updateTop / restart are carried as named deviations (known_findings.txt); ties are compared through a logged integer "
+    note="List size is lowered through the verif hook store.VerifSetMaxCandidates (max_candidate_count is a package variable). Four genuine "
+         "defects (three in updateTop / restart, one in the snapshot block's DeputyNodes) are carried as named deviations (known_findings.txt; their repair changes consensus results); ties are compared through a logged integer "
          "address rank.",
     technique="TLA+ model checking (Ranking.tla) + replay of the full TLC state graph and simulated behaviours on the real store + seeded random "
               "histories + TLC trace validation (TraceRanking.tla, property monitor with named deviations)")
